@@ -50,7 +50,7 @@ def run_one(sid, tier, inplace, extra_props):
         res["error"] = "patch does not apply: " + (p.stdout + p.stderr)[-500:]
         return res
     try:
-        env = dict(os.environ, UNYT_REPO=tree, PYTHONPATH=tree)
+        env = dict(os.environ, UNYT_REPO=tree, PYTHONPATH=tree, VERIF_EVIDENCE_DIR=os.path.join(VERIF, "build", "seeded_evidence"))
         demo = os.path.join(d, "demo.py")
         if os.path.exists(demo):
             r = sh([PY, "-W", "ignore", demo], cwd=tree, env=env, timeout=600)
@@ -113,6 +113,10 @@ def main():
         sys.stdout.flush()
         if not res.get("caught"):
             bad += 1
+    # the runs above regenerated lean/UnytModel/Generated/* from the patched trees: restore the
+    # tables of the unchanged tree
+    subprocess.run([PY, "-W", "ignore", os.path.join(VERIF, "tools", "extract_tables.py")], cwd=VERIF,
+                   env=dict(os.environ, UNYT_REPO="/repo", PYTHONPATH="/repo"), capture_output=True)
     sys.exit(1 if bad else 0)
 
 
